@@ -506,7 +506,7 @@ def plan(tier, seed):
     units = []
     specs = base_specs(tier, seed)
     # every unperturbed file: plain cycles, a sweep of write faults, interleaving with its neighbour
-    per = 6
+    per = 6 if tier == "quick" else 1
     for j in range(0, len(specs), per):
         units.append({"kind": "plain", "specs": specs[j : j + per], "next": specs[(j + per) % len(specs)], "seed": seed, "tier": tier})
     # files as older versions of SunVox / of this library wrote them: legacy Sampler records
